@@ -176,6 +176,8 @@ def gen_relink_ops(rng: random.Random, ses: Session, n: int) -> list[dict]:
 
 def build(spec: dict, ops: list[dict]) -> Session:
     ses = Session(spec)
+    if spec.get("vel"):
+        add_vel(ses, spec)
     for op in ops:
         ses.apply(copy.deepcopy(op))
     return ses
@@ -1405,6 +1407,112 @@ def check_c16(tracks, rng: random.Random, co: CaseOut, model: bool = True, only:
 
 
 # ------------------------------------------------------------------------------------------------
+# C16 on plain `Tracks` (no track ids, any DAG incl. merges): the exporters and queries that such
+# an object offers must leave it alone too — in particular they must not "upgrade" it in place
+# ------------------------------------------------------------------------------------------------
+def snapshot_plain(tracks) -> dict:
+    g = tracks.graph
+    fd = tracks.features
+    seg = tracks.segmentation
+    return {
+        "class": type(tracks).__name__,
+        "node-order": tuple(g.nodes),
+        "nodes": {int(n): tuple((k, deep(v)) for k, v in d.items()) for n, d in g.nodes(data=True)},
+        "edge-order": tuple(g.edges),
+        "edges": {(int(u), int(v)): tuple((k, deep(x)) for k, x in d.items()) for u, v, d in g.edges(data=True)},
+        "segmentation": None if seg is None else (str(seg.dtype), tuple(seg.shape), seg.tobytes()),
+        "scale": None if tracks.scale is None else deep(tracks.scale),
+        "ndim": tracks.ndim,
+        "registry": tuple((k, deep(dict(f))) for k, f in fd.items()),
+        "special-keys": deep([fd.time_key, fd.position_key, fd.tracklet_key, fd.lineage_key]),
+        "history": (len(tracks.action_history.undo_stack), len(tracks.action_history.redo_stack)),
+        "annotators": tuple((type(a).__name__, tuple(sorted(a.features.keys())),
+                             tuple(sorted(k for k, (_, on) in a.all_features.items() if on)))
+                            for a in tracks.annotators),
+    }
+
+
+def plain_c16_cases(rng: random.Random, n: int, res: Result) -> None:
+    from funtracks.data_model import Tracks
+    export_to_csv, export_to_geff = _ft()[0], _ft()[1]
+    seen: set = set()
+    for _ in range(n):
+        spec = G.gen_case(rng, with_ids=False)
+        spec.pop("prebuilt", None)
+        case = F.Case(spec)
+        g = nx.DiGraph()
+        nsp = case.ndim - 1
+        for x in spec["nodes"]:
+            a: dict = {"time": x["time"]}
+            if case.cfg == "pos":
+                a["pos"] = [float(x["pos"])] * nsp
+            elif case.cfg == "axes":
+                for ax in F.axis_names(case.ndim):
+                    a[ax] = float(x["pos"])
+            if "score" in x:
+                a["score"] = x["score"]
+            g.add_node(x["id"], **a)
+        g.add_edges_from((e["u"], e["v"]) for e in spec["edges"])
+        nodes = list(g.nodes)
+        for v in nodes:  # merges
+            if rng.random() < 0.3:
+                c = [u for u in nodes if g.nodes[u]["time"] < g.nodes[v]["time"] and not g.has_edge(u, v)]
+                if c:
+                    g.add_edge(rng.choice(c), v)
+        kw: dict = dict(scale=case.scale, ndim=case.ndim)
+        if case.cfg == "seg":
+            kw["segmentation"] = np.array(spec["seg"], dtype=np.dtype(spec.get("seg_dtype", "int64"))).reshape(case.shape)
+        if case.cfg == "axes":
+            kw["pos_attr"] = F.axis_names(case.ndim)
+        try:
+            t = Tracks(g, **kw)
+            t.features["score"] = {"feature_type": "node", "value_type": "int", "num_values": 1,
+                                   "required": False, "default_value": None}
+        except Exception as e:  # noqa: BLE001
+            res.count(f"plain-tracks:construct-raised:{type(e).__name__}")
+            continue
+        res.count(f"plain-tracks:cfg:{case.cfg}{case.ndim - 1}d")
+        d = tmpdir()
+        try:
+            sel = set(rng.sample(nodes, rng.randint(1, len(nodes)))) if nodes else set()
+            n1 = rng.choice(nodes) if nodes else None
+            calls = [
+                ("export_to_csv(display names)", lambda: export_to_csv(t, d / "p.csv", use_display_names=True)),
+                ("export_to_csv(display names, subset)", lambda: export_to_csv(t, d / "ps.csv", node_ids=set(sel), use_display_names=True)),
+                ("export_to_geff", lambda: export_to_geff(t, d / "pg")),
+                ("export_to_geff(subset)", lambda: export_to_geff(t, d / "pgs", node_ids=set(sel))),
+                ("nodes()/edges()", lambda: (t.nodes(), t.edges(), t.in_degree(), t.out_degree())),
+                ("get_available_features", lambda: t.get_available_features()),
+                ("features views", lambda: (t.features.node_features, t.features.edge_features, t.features.dump_json())),
+            ]
+            if n1 is not None:
+                calls += [("get_positions/get_times", lambda: (t.get_positions([n1]), t.get_times([n1]), t.get_time(n1))),
+                          ("predecessors/successors", lambda: (t.predecessors(n1), t.successors(n1))),
+                          ("get_node_attr", lambda: (t.get_node_attr(n1, "score"), t.get_nodes_attr([n1], "time")))]
+                if case.cfg == "seg":
+                    calls.append(("get_pixels", lambda: t.get_pixels(n1)))
+            rng.shuffle(calls)
+            for name, call in calls:
+                before = snapshot_plain(t)
+                st, r = guarded(call)
+                res.evaluations += 1
+                res.count("plain-tracks:op:" + name + ("" if st == "ok" else f":{type(r).__name__ if st == 'err' else st}"))
+                res.nontrivial.add(h([spec["nodes"], spec["edges"], name, sorted(sel)]))
+                diffs = snap_diff(before, snapshot_plain(t))
+                for tag, what in diffs:
+                    sig = f"C16|plain-tracks|{name.split('(')[0]}|{tag}"
+                    if sig not in seen:
+                        seen.add(sig)
+                        res.failures.append(Failure("oracle", "C16", sig, f"plain Tracks, {name}: {what}",
+                                                    {"plain_tracks": {k: spec[k] for k in spec if k != "seg"},
+                                                     "merge_edges": [list(e) for e in g.edges], "call": name, "selection": sorted(sel)}))
+                if diffs:
+                    break
+        finally:
+            shutil.rmtree(d, ignore_errors=True)
+
+
+# ------------------------------------------------------------------------------------------------
 # running cases, shrinking, entry points
 # ------------------------------------------------------------------------------------------------
 def run_check(prop: str, tracks, seed: int, extra: dict | None = None, model: bool = True,
@@ -1443,6 +1551,15 @@ def run_sequence(prop: str, ses: Session, seed: int, extra: dict | None, model: 
     return outs
 
 
+def add_vel(ses: Session, spec: dict) -> None:
+    t = ses.tracks
+    t.features["vel"] = {"feature_type": "node", "value_type": "float", "num_values": 2,
+                         "required": False, "default_value": None}
+    for x, v in zip(spec["nodes"], spec["vel"]):
+        if x["id"] in t.graph:
+            t.graph.nodes[x["id"]]["vel"] = list(v)
+
+
 BIG_SHARE = {"C14": 0.02, "C15": 0.05, "C16": 0.02}
 
 
@@ -1453,6 +1570,12 @@ def make_case(rng: random.Random, intensify: bool, prop: str | None = None) -> t
         return spec, [], Session(spec)
     spec = G.gen_case(rng)
     ses = Session(spec)
+    if rng.random() < 0.3:
+        # a custom registered MULTI-VALUE node feature without value names / display name
+        # (every built-in multi-value feature has value names)
+        spec["vel"] = [[float(rng.randrange(-20, 20)) + rng.choice([0.0, 0.5]), float(rng.randrange(1, 9))]
+                       for _ in spec["nodes"]]
+        add_vel(ses, spec)
     ops: list[dict] = []
     if rng.random() < (0.7 if intensify else 0.5):
         ops = gen_ops(random.Random(rng.getrandbits(64)), ses, rng.randint(6, 10))
@@ -1708,6 +1831,8 @@ def _shard(args) -> Result:
                 res.notes.append(f"fixed case not buildable: {type(e).__name__}: {str(e)[:100]}")
                 continue
             _one_case(prop, fx["spec"], fx["ops"], ses, 12345, res, pend, seen, "fixed-corpus")
+    if prop == "C16" and not fixed:
+        plain_c16_cases(random.Random(seed ^ 0x9A1A), max(4, ncases // 3), res)
     for _ in range(ncases):
         try:
             made = make_case(rng, intensify, prop)
